@@ -20,7 +20,7 @@ per node listed in SHAPES (a shape-bounded proof; the shape list is the only bou
 import z3
 
 from pyvc.core import SV, SymDict, SymObj, SymSet, TBool, TInt, TOpaque
-from pyvc.task import Task, check_call
+from pyvc.task import Task, check_call, thorough
 
 from .linalg_bonds import install, mk_index
 
@@ -226,9 +226,18 @@ def _drop_task(sname, shape):
     )
 
 
+MORE_SHAPES = {
+    "depth4": ((((L, L), L), (L, L)), L),
+    "wide4": (L, L, L, L),
+    "fused_of_three_fused": ((L, L), (L, L, L), (L,)),
+    "depth3_right": (L, (L, ((L, L), L))),
+}
+
+
 def tasks():
     out = []
-    for sname, shape in SHAPES.items():
+    shapes = dict(SHAPES, **MORE_SHAPES) if thorough() else SHAPES
+    for sname, shape in shapes.items():
         out.append(_conj_task(sname, shape))
     for sname in ("leaf", "fused2", "fused_of_fused_left", "depth3"):
         out.append(_involution_task(sname, SHAPES[sname]))
